@@ -16,7 +16,7 @@ TRUSTED = ['Coq 8.16.1 kernel + vm_compute', 'harness/p05.py oracle (reads back 
            'stamps the file dumpers are documented to write into the descriptor are whitelisted (path suffix, format, encoding, dialect, mediatype, profile, temporal format, decimalChar, groupChar, trueValues, falseValues, counters)']
 ASSUMES = ['suffix steps are built-in steps or user steps that drain their input']
 
-OBS = ['printer', 'dump', 'zip', 'stream', 'checkpoint', 'finalizer', 'update_stats', 'validate']
+OBS = ['printer', 'dump', 'zip', 'stream', 'checkpoint', 'finalizer', 'finalizer_stats', 'update_stats', 'validate']
 SUFFIX = ['none', 'mutate', 'filter', 'delete_first', 'delete_last', 'delete_all', 'delete_middle', 'concat', 'join_delete', 'join_keep', 'dedup', 'add_field']
 WHITELIST_RES = {'path', 'format', 'encoding', 'dialect', 'mediatype', 'profile', 'bytes', 'hash', 'count_of_rows'}
 WHITELIST_FIELD = {'format', 'decimalChar', 'groupChar', 'trueValues', 'falseValues'}
@@ -120,6 +120,13 @@ def run_impl(case):
             def cb():
                 calls.append(delivered_count[0])
             return DF.finalizer(cb)
+        if o == 'finalizer_stats':
+            # a finalizer whose callback asks for the stats: what it is handed must be the stats as they stand when the
+            # last row has passed (an upstream dumper's counters included), not an earlier snapshot
+            def cbs(stats):
+                calls.append(delivered_count[0])
+                state['stats_seen'] = dict(stats)
+            return Flow(DF.update_stats({'seen': True}), DF.dump_to_path(os.path.join(wd, 'fd')), DF.finalizer(cbs))
         if o == 'update_stats':
             return DF.update_stats({'seen': True})
         if o == 'validate':
@@ -142,7 +149,7 @@ def run_impl(case):
         dp0, rows0 = run(prefix() + suffix_steps(case, names))
         dp1, rows1 = run(prefix() + [observer()] + suffix_steps(case, names), count=True)
         dpP, rowsP = run(prefix())
-        stamps = case['obs'] in ('dump', 'zip')
+        stamps = case['obs'] in ('dump', 'zip', 'finalizer_stats')
         out['down_same_rows'] = rows_enc_l(rows1) == rows_enc_l(rows0)
         out['down_same_desc'] = json.dumps(enc(canon_desc(dp1, stamps)), sort_keys=True) == json.dumps(enc(canon_desc(dp0, stamps)), sort_keys=True)
         out['n_down'] = [len(r) for r in rows1]
@@ -191,9 +198,12 @@ def run_impl(case):
                 idx = [int(l.split()[0]) for l in t.splitlines() if l.split() and l.split()[0].isdigit()]
                 last.append(max(idx) if idx else 0)
             out['printer_last_index'] = last
-        elif o == 'finalizer':
+        elif o in ('finalizer', 'finalizer_stats'):
             out['calls'] = calls
             out['total_delivered'] = delivered_count[0]
+            if o == 'finalizer_stats':
+                st = state.get('stats_seen') or {}
+                out['stats_seen'] = {'seen': st.get('seen'), 'count_of_rows': st.get('count_of_rows'), 'has_hash': st.get('hash') is not None}
     except Exception as e:
         c = e
         while type(c).__name__ == 'ProcessorError' and getattr(c, 'cause', None) is not None:
@@ -230,7 +240,11 @@ def oracle(case, out):
             return 'printer reported %d resources of %d' % (out['tables'], len(want))
         if out['printer_last_index'] != want:
             return 'printer\'s last row indexes %r, stream lengths %r' % (out['printer_last_index'], want)
-    if o == 'finalizer':
+    if o == 'finalizer_stats':
+        ss = out.get('stats_seen') or {}
+        if ss.get('seen') is not True or ss.get('count_of_rows') != sum(want) or not ss.get('has_hash'):
+            return 'finalizer was handed stats %r; when the last row has passed the upstream dumper has counted %d rows' % (ss, sum(want))
+    if o in ('finalizer', 'finalizer_stats'):
         if len(out['calls']) != 1:
             return 'finalizer fired %d times' % len(out['calls'])
         if out['calls'][0] != out['total_delivered']:
